@@ -48,6 +48,8 @@ LABEL_POOLS = [
     # two comparable label types whose value order disagrees with the order of their type names (float sorts before int
     # by ordering_key, whatever the values): non-integral floats next to ints
     [1, 2.5, 0, -0.5, 3, "a"],
+    # strings whose natural (numeric suffix) order differs from their lexicographic order, next to an int
+    ["x2", "x10", 3, "x1", "x9", 12],
 ]
 # partner of equal hash for the labels of the last pool
 HASH_TWIN = {-1: -2, -2: -1, 0: 2 ** 61 - 1, 2 ** 61 - 1: 0}
